@@ -1556,7 +1556,8 @@ std::vector<std::string> hist_domains(const Tier &t) {
   // the thorough tier also runs the scalar histories on the array domains
   // (their lattice operations wrap the base domain's in non-trivial ways)
   // ... and on the machine-integer domains (BV profile of the mirror)
-  return domains_with(0, (t.thorough ? 0 : (CAP_ARRAY | CAP_BV)) | CAP_REGION, !t.thorough);
+  // ... and on the region domains (scalar operations go through the ghost-variable layer)
+  return domains_with(0, t.thorough ? 0 : (CAP_ARRAY | CAP_BV | CAP_REGION), !t.thorough);
 }
 
 // --- C03 / C04: the same engine; C04 histories are denser in lattice queries
